@@ -255,6 +255,7 @@ Definition stages_of (code p1 p2 : Z) : list stage :=
   else if code =? 3 then [STimer p1 (z2b p2)]
   else if code =? 4 then [STimer p1 (z2b p2); SAcc]
   else if code =? 5 then [SAcc; SBoom p1]
+  else if code =? 7 then [SBoom p1]
   else if code =? 6 then []
   else [SAdd 0].
 
